@@ -127,9 +127,9 @@ CHECKS = {
         note='ServiceBackend is instantiated without network (fake client/fs); five known findings are listed (four unguarded shards re-find them, twelve guarded shards search behind them); one defect (job token dedup) was fixed.'),
     'C30': dict(
         level='exploration',
-        technique='Hypothesis-generated event histories (pushes, reviews, labels, statuses, batch completions, target moves, delayed delivery) against a ground-truth fake GitHub/Batch with a monitor at the instant of PUT .../merge',
+        technique='Hypothesis-generated event histories (pushes, reviews, labels, statuses, batch completions, target moves, delayed delivery) plus a generated fault plan (any GitHub / Batch client call fails before taking effect: 5xx, 403, timeout, disconnect; single call or outage) against a ground-truth fake GitHub/Batch with a monitor at the instant of PUT .../merge',
         text='6.7k histories per quick run (~75% reach a merge attempt) drive the real WatchedBranch/PR update, heal and merge code; every merge is judged against ground truth: approved, no blocking label, required checks green on the current head, test batch green for (head, current target), one merge per target sha.',
-        note='Trusts vlib/fakegithub.py (REST/GraphQL/Batch/db fakes, no branch protection) and six replaced module globals of ci.github (shell/build config); a clause is strict only for facts CI has had the chance to read. Two defects found were fixed.'),
+        note='Trusts vlib/fakegithub.py (REST/GraphQL/Batch/db fakes, no branch protection) and six replaced module globals of ci.github (shell/build config); a clause is strict only for facts CI has had the chance to read; faults fail before the effect (a served-then-lost response is outside the model, see DESIGN A.3). Two defects found were fixed.'),
     'C01': dict(
         level='exploration',
         technique='Hypothesis-generated service histories (JSON op lists) executed by the real front-end/driver code and the repository SQL on minimysql; after every op aggregates are recomputed from primary rows (reference recomputation, not a second implementation)',
@@ -137,7 +137,7 @@ CHECKS = {
         note='Serializable at transaction granularity on an interpreter, not MySQL itself; INSERT..SELECT-from-target evaluated per row. Three known findings are excluded by construction (guards) and re-demonstrated from corpus/C01.'),
     'C04': dict(
         level='exploration',
-        technique='Hypothesis histories weighted to duplicated/late/stale worker messages; lifecycle relation checked at every transaction boundary, tallies recomputed after every op',
+        technique='Hypothesis histories weighted to duplicated/late/stale worker messages, one case in four weaving a whole job life (pool or job-private) with a later update of its children committed at a generated point; lifecycle relation checked at every transaction boundary, tallies recomputed after every op',
         text='~1k histories per quick run: every job state change observed between two transactions must be in the allowed relation (terminal absorbing), and per-group completed/succeeded/failed/cancelled tallies must equal the count of terminal jobs in the subtree.',
         note='Same engine limits as C01; worker reports are only generated from active instances (endpoint precondition).'),
     'C05': dict(
@@ -164,7 +164,7 @@ CHECKS = {
         level='exploration',
         technique='Hypothesis pool configurations x request strings through the real validator and front_end._create_jobs on batchsim; independent Fraction + brute-force feasibility oracle',
         text='~27k requests per quick run over gcp and azure: accepted => granted cores/memory/storage >= request and fit one worker in a matching collection; "unsatisfiable" => brute force finds no feasible collection.',
-        note='Per-core memory and machine-type tables are hand-copied; fe.CLOUD patched per case. Two known crash findings (non-power-of-two pool cores); one crash fixed.'),
+        note='Per-core memory and machine-type tables are hand-copied; fe.CLOUD patched per case. 1 request in 4 aims at the (largest power of two below worker_cores, worker_cores] window of a non-power-of-two pool. Two known crash findings (non-power-of-two pool cores) are matched only when their trigger holds under the brute-force oracle (a crash outside it is a new violation); one crash fixed.'),
     'C13': dict(
         level='exploration',
         technique='exhaustive enumeration of instance configurations (all valid gcp/azure machine types x disks x preemptible x locations x job_private) x generated packings; first-principles quantities and to_dict/from_dict/JSON round trips',
@@ -172,9 +172,9 @@ CHECKS = {
         note='Dynamic external storage excluded by definition; trusts first-principles quantities in checks/c13.py.'),
     'C14': dict(
         level='exploration',
-        technique='every route of front_end.routes enumerated at run time x 13 caller kinds x id bindings x bodies, driven in-process through aiohttp _handle with the production middlewares on batchsim; statement-derived allow/deny classes; snapshot + outbound-call + SQL-log comparison on denial',
-        text='5.4k exhaustive requests + 3.2k generated per quick run: protected routes deny anonymous/inactive/strangers, owner-only mutations deny members, billing administration denies non-developers, and a denied request changes nothing.',
-        note='Auth service faked at the client-session boundary; jinja rendering replaced by a JSON echo. One defect (update token lookup without ownership check) was fixed.'),
+        technique='every route of front_end.routes enumerated at run time x 13 caller kinds x id bindings x bodies, driven in-process through aiohttp _handle with the production middlewares on batchsim, plus generated request histories on one app instance (membership, account state, ownership and batches changing between requests, retries immediately and after virtual time); statement-derived allow/deny classes judged against the rows as they are at the moment of each request; snapshot + outbound-call + SQL-log comparison on denial',
+        text='5.4k exhaustive requests + 1.6k generated + 644 request histories (164 systematic granted->revoked->retry->re-added->retry per route) per quick run: protected routes deny anonymous/inactive/strangers, owner-only mutations deny members, billing administration denies non-developers, and a denied request changes nothing.',
+        note='Auth service faked at the client-session boundary; jinja rendering replaced by a JSON echo. The 10 s userdata cache is by design: for 10 s of virtual time after an account state change either state is accepted; membership and ownership must be honoured by the very next request. One defect (update token lookup without ownership check) was fixed.'),
     'C27': dict(
         level='fault_enumeration',
         technique='exhaustive single-fault enumeration (31 body shapes x attempt 1..3 x every position x 14 error kinds) + Hypothesis multi-fault plans injected through the fake driver into the real gear.database; dict reference model',
@@ -229,5 +229,5 @@ CHECKS = {
         level='fault_enumeration',
         technique='Hypothesis pipelines for the real aioclient (jobs, parents, job groups, 1-3 submits, small bunch limits) through the real retrying Session into the real front-end app; per-request fault plan (lost response -> client retry, duplicate delivery); invariants + metamorphic comparison with the fault-free run',
         text='400 pipelines x fault plans per quick run (both fast path and multi-bunch path): no second batch/update, contiguous ordered id ranges, no double counting (n_jobs, scheduler counters), client ids == server ids, and the faulty run equals the fault-free run when all calls returned.',
-        note='Duplicates are delivered after the first request completed (no concurrent duplicate inside one transaction window); second-client interleaving is not generated. Observation (not judged): a re-sent job-group bunch is answered 400 "not submitted in order".'),
+        note='Duplicates are delivered after the first request completed (no concurrent duplicate inside one transaction window); a second client with its own batch is interleaved request-by-request under a generated turn schedule. Observation (not judged): a re-sent job-group bunch is answered 400 "not submitted in order".'),
 }
